@@ -322,7 +322,7 @@ where
     // 2. We can't refer to the box we create by address on the stack, because we will risk accessing
     // it after this part of the stack is destroyed/overwritten/whatever.
 
-    let map_ptr = unsafe {
+    let map_res = unsafe {
         mmap(
             None,
             NonZeroUsize::new_unchecked(size),
@@ -331,7 +331,18 @@ where
             MapAdditionalFlags::MAP_ANONYMOUS,
             None,
             0,
-        )?
+        )
+    };
+    let map_ptr = match map_res {
+        Ok(map_ptr) => map_ptr,
+        Err(e) => {
+            // No stack, no thread: nobody else will release the closure and the join state
+            unsafe {
+                drop_fn_caller(fn_caller);
+                tsm.dealloc();
+            }
+            return Err(e.into());
+        }
     };
     // Stack grows downward
     let mut stack = map_ptr + size;
